@@ -1592,8 +1592,9 @@ func (n *PrintNode) Line() int {
 }
 
 func (n *PrintNode) Render(w io.Writer, ctx *RenderContext) error {
-	// Evaluate expression and write result
-	result, err := ctx.EvaluateExpression(n.expression)
+	// Evaluate expression and write result (a macro call or parent() that is
+	// the whole expression is streamed)
+	result, err := ctx.evaluateExpressionLazy(n.expression)
 	if err != nil {
 		// Log error if debug is enabled
 		if IsDebugEnabled() {
